@@ -18,10 +18,11 @@ import (
 func init() {
 	register(&Prop{
 		ID: "C10", Level: "exploration", Quick: 80000, Thorough: 5000000,
-		Rule: "trial = (reference, alignment) with ambiguity runs at either end, adjacent runs separated by one base, all-ambiguous rows, every symbol profile and FASTA layout; 1..8 records or (10%) 60..150 tiny records; 3 seeded schedules per trial with NumCPU in {1..16}; non-trivial = some row has both a SNP and an ambiguity run, and (>= 2 rows arrived out of order at the writer in some run, or a run boundary case occurred: run at column 1, run at the last column, length-1 run, two runs separated by one base); distinct = distinct inputs",
-		Gen:   genC10,
-		Check: checkC10,
-		Required: []string{"out_of_order_arrival", "sender_blocked_on_full_buffer", "run_at_first_column", "run_at_last_column", "run_length_one", "runs_separated_by_one_base", "all_ambiguous_row"},
+		Rule:          "trial = (reference, alignment) with ambiguity runs at either end, adjacent runs separated by one base, all-ambiguous rows, every symbol profile and FASTA layout; 1..8 records or (10%) 60..150 tiny records; 3 seeded schedules per trial with NumCPU in {1..16}; non-trivial = some row has both a SNP and an ambiguity run, and (>= 2 rows arrived out of order at the writer in some run, or a run boundary case occurred: run at column 1, run at the last column, length-1 run, two runs separated by one base); distinct = distinct inputs",
+		ShrinkColumns: true,
+		Gen:           genC10,
+		Check:         checkC10,
+		Required:      []string{"out_of_order_arrival", "sender_blocked_on_full_buffer", "run_at_first_column", "run_at_last_column", "run_length_one", "runs_separated_by_one_base", "all_ambiguous_row"},
 	})
 }
 
